@@ -209,6 +209,51 @@ def close_t(t):
         t["u"].close()
 
 
+async def late_reply_handler(r, w, origin, info):
+    """reads until EOF, waits 2 s, then answers: the reply comes well inside any idle period >= 4 s"""
+    while True:
+        b = await r.read(65536)
+        if not b:
+            break
+    await asyncio.sleep(2.0)
+    w.write(b"LATE-REPLY")
+    await w.drain()
+
+
+async def upload_then_halfclose(out, ports, late_port, T, cfgname, io_name):
+    """one direction carries data for longer than the period while the other is silent; then the sender half-closes and the
+    peer answers 2 s later: the tunnel must not be closed for idleness (data flowed less than T ago)"""
+    out.case()
+    who = "http/upload-halfclose cfg=%s io=%s" % (cfgname, io_name)
+    try:
+        c = await open_conn("127.0.0.1", ports["http"])
+        st, _ = await http_connect(c, "127.0.0.1", late_port)
+        assert st == 200
+    except Exception as e:
+        out.inconclusive += 1
+        return
+    try:
+        t0 = now()
+        while now() - t0 < T + 1.5:
+            c.write(b"u")
+            await c.drain()
+            await asyncio.sleep(0.4)
+        t_last = now()
+        c.eof()
+        try:
+            got = await c.read_all(timeout=T + 3)
+        except Exception:
+            got = b""
+        out.nontrivial(("http", "upload-halfclose", cfgname, io_name))
+        if got != b"LATE-REPLY":
+            out.violation("tunnel closed for idleness although data was relayed less than the period ago",
+                          {"who": who, "period_s": T, "pattern": "client active for T+1.5 s, half-close, origin replies 2 s later", "client_received": got.decode("latin1"), "closed_after_last_byte_s": round(now() - t_last, 2)})
+        else:
+            out.count("late_replies_delivered")
+    finally:
+        c.close()
+
+
 async def main(args):
     out = Out("C13", "c13", "configs {timeouts absent, idle 0/udp 0, idle 2/udp 4, idle 4/udp 2} x listener kinds {http, socks, reverse-tcp, reverse-udp, socks-udp, CONNECT-over-QUIC} x traffic patterns {silent, trickle just under the period, burst then silence} x io modes; /api/live wiring check and wall-clock close window. distinct = distinct (listener kind, pattern, config, io mode)")
     rng = random.Random(args.seed)
@@ -258,7 +303,15 @@ async def main(args):
                     out.inconclusive += 1
                 return
             await scenario(out, A, ports, origin.port, uport, kind, p, T, cname, io_name)
-        await asyncio.gather(*[run(j) for j in jobs])
+        late = await TcpOrigin(late_reply_handler, host="127.0.0.1").start()
+        extra = []
+        seen_cfg = set()
+        for (A, ports, kind, p, T, cname, io_name) in jobs:
+            if cname == "idle4-udp2" and (cname, io_name) not in seen_cfg:
+                seen_cfg.add((cname, io_name))
+                extra.append(upload_then_halfclose(out, ports, late.port, 4, cname, io_name))
+        await asyncio.gather(*([run(j) for j in jobs] + extra))
+        await late.stop()
         for p in procs:
             if not p.alive():
                 out.violation("proxy process died", {"proxy": p.name, "rc": p.exit_status(), "stderr": p.stderr_tail(600)})
